@@ -133,7 +133,11 @@ def compare_state(part, w, st, c, hist, emb, init_name):
                        _wit(hist, emb, init_name, detail=msg))
         ok = False
     res = wroots.get(c["dst"]) if c["op"] not in GEO or not c["ip"] else None
-    for aspect, o, msg in W.diff_heaps(want, wroots, got, groots)[:4]:
+    diffs = W.diff_heaps(want, wroots, got, groots)
+    if diffs and diffs[0][0] == "sharing-less":
+        part.note("R_less_sharing_than_the_model:" + opname(c))   # not a violation; the history is not continued
+        return False
+    for aspect, o, msg in diffs[:4]:
         is_result = (o == res) or (o and res and want.get(res, {}).get("k") == "field" and o in (want[res]["mesh"], want[want[res]["mesh"]]["region"]))
         if c["op"] in GEO and c["ip"]:
             is_result = True
@@ -432,11 +436,91 @@ def run_traces(ctx, df, ntraces, length, batches):
     return traces
 
 
-def run(ctx):
-    df = core.import_library()
+# ------------------------------------------------------------------------------------------------
+# Which property does a disagreement belong to?  The stage runs inside the checks of the properties whose texts the
+# clauses of DF.tla come from; a check reports only what its own property states (a C13 run never raises an alarm for a
+# disagreement that belongs to C08).  `./check DF` reports everything.
+FAMILY = {}
+for _op in GEO:
+    FAMILY[_op] = "geo"
+for _op in ALGEBRA:
+    FAMILY[_op] = "algebra"
+for _op in SEL:
+    FAMILY[_op] = "sel"
+FAMILY.update({"diff": "diff", "setvalid": "valid", "mutatevalid": "valid", "updateconst": "update", "setarray": "update",
+               "mkfield": "update", "h5": "h5", "ovf": "ovf", "vtk": "vtk", "xarray": "xarray"})
+FAMILY_OWNER = {"geo": {"C13"}, "algebra": {"C03"}, "sel": {"C07"}, "diff": {"C08"}, "valid": {"C08"}, "update": {"C02"},
+                "h5": {"C10"}, "ovf": {"C09"}, "vtk": {"C16"}, "xarray": {"C17"}}
+CLAUSE_OWNER = {
+    "DF_RegionNormal": {"C13"}, "DF_MeshNormal": {"C13"}, "DF_FieldShapes": {"C13"}, "DF_RootsLive": {"C13"},
+    "DF_InplaceEqualsCopy": {"C13"}, "DF_InplaceReturnsSelf": {"C13"}, "DF_AffineExact": {"C13"},
+    "DF_SubregionsWellFormed": {"C14"}, "DF_SelSubregions": {"C14"},
+    "DF_OwnValidity": {"C08"}, "DF_ValidityRule": {"C08"}, "DF_SetValid": {"C08"},
+    "DF_Cellwise": {"C03"}, "DF_Update": {"C02"}, "DF_CellAligned": {"C07"},
+}
+OWNERS = ("C02", "C03", "C07", "C08", "C09", "C10", "C12", "C13", "C14", "C16", "C17")
+
+
+def owners_of(key):
+    """the properties whose text a violation key of this stage contradicts (a set; never empty)"""
+    k = key
+    for pre in ("model:MC_DF:", "trace:DFTrace:", "trace:"):
+        if k.startswith(pre):
+            k = k[len(pre):]
+    parts = k.split("/")
+    clause = parts[0]
+    if clause.endswith("_S"):
+        clause = clause[:-2]
+    opn = parts[1] if len(parts) > 1 else ""
+    aspect = parts[2] if len(parts) > 2 else ""
+    op = opn.split(".")[0]
+    fam = FAMILY.get(op, "")
+    if "alias-P" in key:
+        return {"C13"} if "alias-P1" in key else {"C14"}
+    own = set(CLAUSE_OWNER.get(clause, ()))
+    if not own:
+        own = set(FAMILY_OWNER.get(fam, {"C13"}))
+        if fam == "geo" and opn.startswith("rotate90.self"):
+            own = {"C12", "C13"}
+        if clause == "DF_PositionsKept":
+            own = {"C12"} if fam == "geo" else {"C07"}
+    # validity follows the data through every operation (C08) whichever family the operation belongs to
+    if aspect.startswith("valid") or aspect.startswith("ownvalid") or clause == "DF_Validity":
+        own.add("C08")
+    if aspect.startswith("subnames"):
+        own.add("C14")
+    if fam == "geo" and clause in ("DF_OperandsUnchanged", "DF_RejectUnchanged", "DF_Rejects", "DF_Accepts", "DF_Sharing"):
+        own = {"C13"}
+    if op == "getsub" and clause in ("DF_Sharing", "DF_CellAligned", "DF_Geometry"):
+        own.add("C14")
+    return own
+
+
+def run_stage(ctx, df, owner=None, lite=False):
+    """the whole pipeline (M, R, T, witness runs) on ctx; with `owner` (a property id) only the disagreements that belong to
+    that property stay on ctx.  `lite` = the reduced budget used inside the quick tier of the owning checks."""
+    before = set(ctx.found)
+    _pipeline(ctx, df, lite)
+    if owner is not None:
+        other = {}
+        for key in list(ctx.found):
+            if key in before:
+                continue
+            if owner not in owners_of(key):
+                info = ctx.found.pop(key)
+                for o in sorted(owners_of(key)):
+                    other[o] = other.get(o, 0) + info["count"]
+        # what belongs to another property is reported by that property's check, here it is only counted
+        ctx.notes["DF_stage_disagreements_owned_by_other_properties"] = other
+    ctx.notes["DF_stage"] = "lite" if lite else ctx.tier
+
+
+def _pipeline(ctx, df, lite):
     quick = ctx.tier == "quick"
     embs = [embed.DYADIC[0], embed.REAL[0]] if quick else [embed.DYADIC[0], embed.DYADIC[1], embed.REAL[0], embed.REAL[1]]
     cfgs = [("DF_d1.cfg", True), ("DF_quick.cfg", False)] if quick else [("DF_d1.cfg", True), ("DF_thorough.cfg", False), ("DF_d3.cfg", False)]
+    if lite:
+        cfgs = cfgs[:1]
     import time
     tick = [time.time()]
 
@@ -451,15 +535,17 @@ def run(ctx):
             _replay_dump(ctx, df, r, embs if every else embs[:2], cfg, every)
         lap("R_" + cfg)
     # deep random mixed histories from the specification, replayed step by step
-    nsim = 48 if quick else 1600
-    rs, files = ctx.simulate("MC_DF", "DF_sim.cfg", num=nsim, depth=10 if quick else 14)
-    ctx.exhaustive = False
-    lap("M_sim")
-    _replay_sim(ctx, df, files, embs[:2])
-    lap("R_sim")
+    exhaustive = ctx.exhaustive
+    if not lite:
+        nsim = 48 if quick else 1600
+        rs, files = ctx.simulate("MC_DF", "DF_sim.cfg", num=nsim, depth=10 if quick else 14)
+        lap("M_sim")
+        _replay_sim(ctx, df, files, embs[:2])
+        lap("R_sim")
+    ctx.exhaustive = False if ctx.prop == "DF" else exhaustive
     _alias_witnesses(ctx, df, embs[0])
     lap("W_alias")
-    run_traces(ctx, df, 60 if quick else 900, (20, 60), 4 if quick else 12)
+    run_traces(ctx, df, (40 if lite else 60) if quick else 900, (20, 60), 4 if quick else 12)
     lap("T")
     # per-action coverage: every action must fire (TLC's -coverage cannot be used on this module: its cost model
     # expands operators at every call site and exhausts the heap before the first state, see notes/DF.md)
@@ -470,16 +556,23 @@ def run(ctx):
             fired[a] = fired.get(a, 0) + v
     ctx.coverage_actions.update({f"MC_DF.{a}": n for a, n in fired.items()})
     silent = [a for a, n in fired.items() if n == 0]
-    if silent:
+    if silent and not lite:
         raise core._tlc.MachineryError(f"actions that never fired in the exhaustive runs: {silent}")
     ctx.assumptions += [
-        "object identity in the model = `is` on the real objects; validity identity = numpy.shares_memory of the masks",
-        "new objects are numbered region, subregions, mesh, field after the largest live id - in the model and in the projection",
-        "coordinates are projected to rationals (denominator <= 64) within 1e-8 relative; values to integers within 1e-9",
-        "the aliasing patterns P1, P2 (C13) and P3 are excluded from the model by DF!AliasGuard and checked by witness runs",
-        "`+f` is explored as f = +f only, so that `+f is f` (documented, known finding of C08) and a copy are the same history",
+        "DF stage: object identity in the model = `is` on the real objects; validity identity = numpy.shares_memory of the masks",
+        "DF stage: new objects are numbered region, subregions, mesh, field after the largest live id - in the model and in the projection",
+        "DF stage: coordinates are projected to rationals (denominator <= 64) within 1e-8 relative; values to integers within 1e-9",
+        "DF stage: the aliasing pattern P1 / P2 (user-made sharing, C13) is excluded from the model by DF!AliasGuard and checked by witness runs",
+        "DF stage: `+f` is explored as f = +f only, so that `+f is f` (documented, known finding of C08) and a copy are the same history",
+        "DF stage: a result that shares LESS than the model predicts (its own mesh / region object) is counted, not reported; the history ends there",
     ]
-    return core.finish(ctx, rule=RULE, extra={"embeddings": [e.name for e in embs]})
+
+
+def run(ctx):
+    df = core.import_library()
+    run_stage(ctx, df, owner=None, lite=False)
+    embs = 2 if ctx.tier == "quick" else 4
+    return core.finish(ctx, rule=RULE, extra={"embeddings": embs})
 
 
 def _detuple(v):
